@@ -15,3 +15,12 @@ package sm3
 //@   ensures forall b :: 0 <= b && b < 32 ==> result[b] == sm3byte(SM3W(CAT(ZEROARR(), 0, DA, DO, DL), DL), b)
 //@   modifies nothing
 //@   apply after call Write#1: sm3w_ext(ghost(dmsg, as(h, sm3.digest)), CAT(ZEROARR(), 0, DA, DO, DL), DL)
+
+//@ func Kdf property C01
+//@   requires len(z) < 2305843009213693000 && 0 <= keyLen && keyLen <= 4294967000
+//@   ensures len(result) == keyLen
+//@   modifies nothing
+
+//@ func New trusted
+//@   ensures result != nil
+//@   modifies nothing
